@@ -23,6 +23,7 @@ m={
  "a fixed root directory whose entry count":("C03","D18: FAT16 volume with 17 root entries: the 18th slot (in the unused rest of the last root sector) was used for a new entry; an independent reader sees a truncated long-name run and a lost cluster (also C01/C04)"),
  "accepted the \".\" and \"..\" entries":("C03","D20: remove(\"d/e/.\") freed the chain of d/e and deleted its dot entry (entry in d still points at the freed cluster); rename(\"d/e/.\", \"x\") cross-linked the directory"),
  "marked data clusters 0x0FFFFFF0":("C06","D21: format of 272629756 sectors (FAT32, 512-byte clusters, 0x0FFFFFF4 clusters): entries of data clusters 0x0FFFFFF0..=0x0FFFFFF5 written as bad while fs-info counts them free"),
+ "active-FAT number that is not smaller":("C07","D22: FAT32 boot sector with extended flags 0x8F (active copy 15 of 2), 64 sectors per cluster, FAT size 0x11111112: accepted at mount, stats() / read_status_flags() panic with multiply overflow (fs.rs fat_slice)"),
  "grow a directory before writing":("C03","D19: full volume, directory with 5 free slots in its last cluster: create_file/rename of a 9-slot name returned NotEnoughSpace and left the 5 long-name slots already written as orphans"),
  "twenty completely filled long-name slots":("C17","D9: 20 fully filled long-name slots returned a 260-unit name"),
 }
